@@ -25,7 +25,10 @@ ASSUMPTIONS = [
 
 @st.composite
 def base_case(draw, ndim=(1, 4), subs=False, nmax=6):
-    g = draw(gen.geom(ndim=ndim, nmax=nmax, exps=(-9, 0) if subs else (-9, 3), big_offsets=False, maxcells=600))
+    if draw(st.integers(0, 4)) == 0:
+        g = draw(gen.geom_int(ndim=ndim))
+    else:
+        g = draw(gen.geom(ndim=ndim, nmax=nmax, exps=(-9, 0) if subs else (-9, 3), big_offsets=False, maxcells=600))
     nd = len(g["n"])
     k = draw(st.integers(1, 3))
     return {"g": g, "subs": draw(gen.index_boxes(g["n"], 3)) if subs else [], "k": k,
